@@ -22,7 +22,7 @@ from .events import (
     Trailers,
 )
 from .http_stream import HTTPStream
-from .ws_stream import WSStream
+from .ws_stream import ASGIWebsocketState, WSStream
 from ..config import Config
 from ..events import Closed, Event, RawData, Updated
 from ..typing import AppWrapper, ConnectionState, Event as IOEvent, TaskGroup, WorkerContext
@@ -270,7 +270,12 @@ class H2Protocol:
                 stream = self.streams.get(event.stream_id)
                 await self._close_stream(event.stream_id)
                 buffer = self.stream_buffers.get(event.stream_id)
-                if isinstance(stream, HTTPStream) and buffer is not None and not buffer._complete:
+                responding = isinstance(stream, HTTPStream) or (
+                    # A WebSocket denial response is a HTTP response
+                    isinstance(stream, WSStream)
+                    and stream.state == ASGIWebsocketState.RESPONSE
+                )
+                if responding and buffer is not None and not buffer._complete:
                     # The app has finished without completing the
                     # response, the client must not mistake what it
                     # has for a complete response nor wait for more.
